@@ -2,7 +2,7 @@
 from .. import core, econ, econgen, econprops
 
 ID = 'C04'
-RUNS = {'quick': 1400, 'thorough': 60000}
+RUNS = {'quick': 800, 'thorough': 60000}
 WALL_CAP = {'quick': 70, 'thorough': 1800}
 BLOCK = 10
 RULE = ('runs = the ECON program population of C01 biased towards markets with several suppliers and allocation rules, '
